@@ -8,7 +8,7 @@ PATCH=$(readlink -f "$1"); DEMO="$2"; shift 2
 PROPS="$@"
 cd /repo || exit 2
 if [ -n "$(git status --porcelain --untracked-files=no)" ]; then echo "REPO NOT CLEAN"; exit 2; fi
-restore() { git -C /repo checkout -- . ; rm -f /repo/tests/zz_demo.rs; }
+restore() { git -C /repo checkout -- . ; sleep 1; git -C /repo diff --name-only HEAD | (cd /repo && xargs -r touch); rm -f /repo/tests/zz_demo.rs; }
 trap restore EXIT
 res() { echo "RESULT $1=$2"; }
 if [ "$DEMO" != "-" ]; then
@@ -17,6 +17,8 @@ if [ "$DEMO" != "-" ]; then
 fi
 if ! git apply "$PATCH"; then res applies false; exit 1; fi
 res applies true
+# make sure every build system sees the change
+sleep 1; git -C /repo diff --name-only | (cd /repo && xargs -r touch); sleep 1
 if cargo nextest run --workspace --no-fail-fast --offline -E 'not binary(zz_demo)' >/tmp/try_base.log 2>&1; then res baseline_passes true; else res baseline_passes false; grep -E "FAIL|error" /tmp/try_base.log | head -5; fi
 if [ "$DEMO" != "-" ]; then
     if cargo nextest run --offline --test zz_demo >/tmp/try_demo_mut.log 2>&1; then res demo_fails_with_change false; else res demo_fails_with_change true; fi
